@@ -167,7 +167,7 @@ func (g *opsGen) emit(e simkit.Ev) { g.ops = append(g.ops, Op{Ev: e}) }
 // element after its child closed, so that per-level flags matter on the way up.
 func (g *opsGen) deepChain() {
 	c := g.c
-	d := []int{31, 32, 33, 34, 40, 48, 70}[c.N(7)]
+	d := []int{31, 32, 33, 34, 40, 48, 63, 64, 65, 66, 70, 129}[c.N(12)]
 	mode := c.N(3) // 0 arrays, 1 objects, 2 mixed
 	kinds := make([]bool, d)
 	for i := range kinds {
